@@ -6,6 +6,7 @@ From InvokeVerif Require Export Model.ExecModel Spec.C04Spec.
 
 Record case := mk {
   c_sigs : list (nat * params);
+  c_eqk : list (nat * nat);          (* task -> Task.__eq__ class (default: itself) *)
   c_reqs : list request;
   c_default : option call;
   c_dedupe : bool;
@@ -14,6 +15,9 @@ Record case := mk {
 
 Definition sig_of (sigs : list (nat * params)) (t : nat) : params :=
   match find (fun p => Nat.eqb (fst p) t) sigs with Some p => snd p | None => [] end.
+
+Definition eqk_of (l : list (nat * nat)) (t : nat) : nat :=
+  match find (fun p => Nat.eqb (fst p) t) l with Some p => snd p | None => t end.
 
 Definition pair_nat_eqb (a b : nat * nat) : bool := Nat.eqb (fst a) (fst b) && Nat.eqb (snd a) (snd b).
 
@@ -24,13 +28,13 @@ Definition results_equiv (a b : list (nat * nat)) : bool :=
 
 Definition obs_equiv (a b : result (list entry * list (nat * nat))) : bool :=
   match a, b with
-  | Ok (l1, r1), Ok (l2, r2) => list_eqb entry_eqb l1 l2 && results_equiv r1 r2
+  | Ok (l1, r1), Ok (l2, r2) => list_eqb entry_eqb_s l1 l2 && results_equiv r1 r2
   | Err e1, Err e2 => err_eqb e1 e2
   | _, _ => false
   end.
 
 Definition corr (c : case) : bool :=
-  obs_equiv (execute (sig_of (c_sigs c)) (c_reqs c) (c_default c) (c_dedupe c)) (c_obs c).
+  obs_equiv (execute (sig_of (c_sigs c)) (eqk_of (c_eqk c)) (c_reqs c) (c_default c) (c_dedupe c)) (c_obs c).
 
 Definition spec (c : case) : bool :=
   spec_ok (sig_of (c_sigs c)) (c_reqs c) (c_default c) (c_dedupe c) (c_obs c).
@@ -40,7 +44,7 @@ Definition spec (c : case) : bool :=
 Definition guard (c : case) : bool :=
   let order := dfs (requested (c_reqs c) (c_default c)) in
   forallb (fun a => forallb (fun b =>
-     Bool.eqb (call_eqb a b)
+     Bool.eqb (call_eqb (eqk_of (c_eqk c)) a b)
               (match eff (sig_of (c_sigs c)) a, eff (sig_of (c_sigs c)) b with
                | Some x, Some y => entry_eqb x y
                | _, _ => false end)) order) order.
